@@ -1441,6 +1441,8 @@ type sysStore struct {
 	searcher *fracmanager.Searcher
 	pager    *fracmanager.Searcher // one fraction per iteration: the limit is re-computed between fractions
 	fetcher  *fracmanager.Fetcher
+	fetch1   *fracmanager.Fetcher // ONE fetch worker: fractions are asked one after the other
+	fetchN   *fracmanager.Fetcher // more workers than fractions
 }
 
 // sorted doc blocks of a sealed fraction hold about two documents: every sealed fraction has several blocks
@@ -1457,7 +1459,8 @@ func openStore(dir string) (*sysStore, error) {
 	}
 	fm.Start()
 	return &sysStore{dir: dir, fm: fm, searcher: fracmanager.NewSearcher(2, fracmanager.SearcherCfg{}),
-		pager: fracmanager.NewSearcher(2, fracmanager.SearcherCfg{FractionsPerIteration: 1}), fetcher: fracmanager.NewFetcher(2)}, nil
+		pager: fracmanager.NewSearcher(2, fracmanager.SearcherCfg{FractionsPerIteration: 1}), fetcher: fracmanager.NewFetcher(2),
+		fetch1: fracmanager.NewFetcher(1), fetchN: fracmanager.NewFetcher(64)}, nil
 }
 
 type sysViolation struct{ class, what string }
@@ -1617,6 +1620,54 @@ func checkStore(s *sysStore, k int, have map[int]bool, crossFraction bool, stage
 			return &sysViolation{"fetch-wrong-bytes", fmt.Sprintf("%s: fetch of document %d (%s) returned %q, expected %q", stage, i, fmtID(d.id()), docs[i], exp)}
 		}
 	}
+	// fetch by BARE ids (no hints) of exactly the delivered documents - in one request the ids that were re-delivered
+	// (possibly into another fraction) together with ids that live in one fraction only - and of every second one, in
+	// both request orders, with one fetch worker and with many: every delivered id comes back once, with its own bytes
+	{
+		var del []int
+		for i := 0; i < k; i++ {
+			if have[i] {
+				del = append(del, i)
+			}
+		}
+		var every2 []int
+		for j := 0; j < len(del); j += 2 {
+			every2 = append(every2, del[j])
+		}
+		rev := func(x []int) []int {
+			r := make([]int, len(x))
+			for i, v := range x {
+				r[len(x)-1-i] = v
+			}
+			return r
+		}
+		for ri, req := range [][]int{del, rev(del), every2} {
+			if len(req) == 0 || (len(del) > 40 && ri == 1) {
+				continue
+			}
+			var idsrc []seq.IDSource
+			for _, i := range req {
+				idsrc = append(idsrc, seq.IDSource{ID: sysDoc(i).id()})
+			}
+			for fi, ft := range []*fracmanager.Fetcher{s.fetch1, s.fetchN} {
+				got, err := ft.FetchDocs(ctx, fracs, idsrc)
+				if err != nil {
+					return &sysViolation{"fetch-error", fmt.Sprintf("%s: fetch of the delivered ids: %v", stage, err)}
+				}
+				for j, i := range req {
+					d := sysDoc(i)
+					if exp := payload(d.doc, d.size); !bytes.Equal(got[j], exp) {
+						cls := "fetch-wrong-bytes"
+						if got[j] == nil {
+							cls = "fetch-delivered-not-found"
+						}
+						return &sysViolation{cls, fmt.Sprintf("%s: fetch of %d delivered ids in one request (%s fetch workers): document %d (%s) returned %q, expected %q",
+							stage, len(req), []string{"1", "64"}[fi], i, fmtID(d.id()), got[j], exp)}
+					}
+				}
+			}
+		}
+	}
 	if !crossFraction {
 		total := uint32(0)
 		for _, f := range fracs {
@@ -1699,6 +1750,22 @@ func runSys(c sysCase) *sysViolation {
 			if err := deliver(idxList(p[1]), t); err != nil {
 				return &sysViolation{"bulk-error", stage + ": " + err.Error()}
 			}
+		case strings.HasPrefix(op, "W"):
+			p := strings.SplitN(op[1:], ":", 2)
+			if len(p) != 2 {
+				return &sysViolation{"harness", "bad op " + op}
+			}
+			x, y := idxList(p[0]), idxList(p[1])
+			if err := deliverInverted(s, x, y); err != nil {
+				return &sysViolation{"bulk-error", stage + ": " + err.Error()}
+			}
+			for _, i := range append(append([]int{}, x...), y...) {
+				if have[i] && !inActive[i] {
+					cross = true
+				}
+				have[i] = true
+				inActive[i] = true
+			}
 		case op == "S":
 			s.fm.WaitIdle()
 			s.fm.SealForcedForTests()
@@ -1724,6 +1791,70 @@ func runSys(c sysCase) *sysViolation {
 			return v
 		}
 	}
+	return nil
+}
+
+// deliverInverted sends bulks X and Y from two goroutines and tries to force docs(X) < docs(Y), meta(Y) < meta(X):
+// the writer of X is parked at the observation point aw.docs (docs block written, meta block not yet) until the writer
+// of Y has reached the same point, then Y goes first.  With the ActiveWriter mutex Y cannot get there while X is
+// parked: after a grace period X is let go and the two bulks are written one after the other (what the property
+// expects; nothing compared here depends on which of the two happens).
+func deliverInverted(s *sysStore, x, y []int) error {
+	type arrival struct{ rel chan struct{} }
+	arrive := make(chan arrival, 8)
+	ended := make(chan struct{}, 8)
+	verifhook.Set(func(name, _ string, _ []int64) {
+		switch name {
+		case "aw.docs":
+			a := arrival{make(chan struct{})}
+			arrive <- a
+			<-a.rel
+		case "aw.end":
+			ended <- struct{}{}
+		}
+	})
+	defer verifhook.Set(nil)
+	errs := make(chan error, 2)
+	send := func(idx []int) {
+		var ms []meta
+		for _, i := range idx {
+			ms = append(ms, sysDoc(i))
+		}
+		docs, metas := blocks(ms)
+		errs <- s.fm.Append(context.Background(), docs, metas)
+	}
+	go send(x)
+	var first arrival
+	select {
+	case first = <-arrive:
+	case <-time.After(20 * time.Second):
+		return fmt.Errorf("writer did not reach aw.docs")
+	}
+	go send(y)
+	select {
+	case second := <-arrive: // both docs blocks are written: let Y write its meta block first
+		close(second.rel)
+		select {
+		case <-ended:
+		case <-time.After(20 * time.Second):
+			return fmt.Errorf("second writer did not finish")
+		}
+		close(first.rel)
+	case <-time.After(250 * time.Millisecond): // serialised writers
+		close(first.rel)
+		select {
+		case second := <-arrive:
+			close(second.rel)
+		case <-time.After(20 * time.Second):
+			return fmt.Errorf("second writer did not reach aw.docs")
+		}
+	}
+	for i := 0; i < 2; i++ {
+		if err := <-errs; err != nil {
+			return err
+		}
+	}
+	s.fm.WaitIdle()
 	return nil
 }
 
@@ -1956,6 +2087,14 @@ func main() {
 			{k: 7, ops: []string{"B6.1.0", "S", "B6.5.4.3", "S", "B2"}},
 			{k: 7, ops: []string{"B6.1.0", "S", "B6.5.4.3"}},
 			{k: 8, ops: []string{"B7.2.0", "S", "B7.6.5", "S", "B7.4.3.1", "R"}},
+			// a repeat crosses a rotation and later fractions hold documents of their own: fetch of all delivered ids at once
+			{k: 8, ops: []string{"B0.1.2", "S", "B0.1.2.3", "S", "B4.5", "S", "B6", "R", "B7"}},
+			{k: 6, ops: []string{"B0.1", "S", "B0.1", "S", "B2", "S", "B3.4.5"}},
+			// two writers at once: a bulk and a partially overlapping repeat of other size, docs and meta order inverted if
+			// the writer lets it happen; then a restart of the still active fraction and a fetch of everything
+			{k: 6, ops: []string{"B5", "W0.1:0.2.3.4", "R", "S"}},
+			{k: 7, ops: []string{"W0.1.2.3:1.4", "R", "B5", "W5.6:6.0", "R", "S", "R"}},
+			{k: 4, ops: []string{"W0.1:0.1.2", "R"}},
 		}
 		for _, c := range directed {
 			sysCases = append(sysCases, c)
